@@ -6,8 +6,8 @@ os.environ["VERIF_COQ_DIR"] = core.COQ
 
 ENGINE = {'name': 'stress',
  'pkg': 'layer4',
- 'files': ['layer4/c13_test.go', 'layer4/c08_test.go'],
- 'run': '^TestVerifC08$',
+ 'files': ['layer4/c13_test.go', 'layer4/c08_test.go', 'layer4/c08_udp_test.go'],
+ 'run': '^TestVerifC08(Udp)?$',
  'corr': 'C08Corr',
  'case_type': 'c08case',
  'check': 'C08Corr.check',
@@ -22,12 +22,16 @@ ENGINE = {'name': 'stress',
          'more than one chunk, peeks, partial reads, return with/without hand-over, late reads) on the real bufPool/prefetch/Read with the pool '
          'choices and append capacities observed, every fourth one under the old always-Put life cycle; (b) stress: per (GOMAXPROCS, connections) in '
          '{(1,64),(4,96),(16,128)} (+{(1,256),(4,512),(16,512),(2,128)} thorough) one run through Server.handle and one through the ListenerWrapper '
-         'with delayed Accept and late reads, streams of 64..1463 self-identifying bytes in two segments; (c) one case per location of '
-         'coq/gen/Access.v; a lock-step case is non-trivial when a pooled array was reused by a later Get, a stress case when at least two '
+         'with delayed Accept and late reads, streams of 64..1463 self-identifying bytes in two segments; (c) one case per location of coq/gen/Access.v; (d) UDP lock-step: VERIF_N/3 schedules on the real servePacket/packetConn/udpBufPool over a scripted '
+         'PacketConn: datagrams of 16..9500 bytes from 2..4 clients fed one at a time, Reads with buffers of 1..4096 or 9000 bytes, associations ended '
+         'and restarted, arrays identified by base pointer; (e) UDP stress: 3..4 clients x 12..60 self-describing datagrams sent concurrently, handlers '
+         'with 600..3600-byte buffers ending their association every 2..4 datagrams, GOMAXPROCS 1/4/16; '
+         'a lock-step case is non-trivial when a pooled array was reused by a later Get, a stress case when at least two '
          'connections got the same array, a location case when it has more than one access site; distinct = distinct terms',
  'trusted_base': ['array identity in the lock-step engine is the base pointer of the slice (unsafe.SliceData); net.Pipe stands for sockets',
                   'the engine re-evaluates the discipline on coq/gen/Access.v with a 10-line Go function; CLoc cases compare it with the Coq definition'],
- 'modelled': ['layer4/connection.go: bufPool, WrapConnection, prefetch (both branches, append growth), Read outside matching, MatchingBytes',
+ 'modelled': ['layer4/server.go: udpBufPool, servePacket (reader goroutine, dispatch loop, packet struct per datagram), packetConn.Read (lastPacket/lastBuf), packetConn.Close',
+              'layer4/connection.go: bufPool, WrapConnection, prefetch (both branches, append growth), Read outside matching, MatchingBytes',
               'layer4/server.go handle, layer4/listener.go handle: Get at entry, Put at return (conditional on errHijacked in the listener)',
               'modules/l4tee/tee.go: the branch Connection (fresh buffer since cc605f6)',
               'not modelled: sync.Pool internals (any free array or a new one), the garbage collector dropping pooled arrays (equivalent to never choosing them)'],
